@@ -25,6 +25,8 @@ for p in mutants/revert-*.patch mutants/hand-*.patch; do
     revert-5a68aac) id=C17;; revert-c7328a6) id=C03;; revert-aea4ea6) id=C12;; revert-3a4e688) id=C15;;
     revert-1838529) id=C13;; revert-eb700ef) id=C20;; revert-5ba2f5f) id=C18;;
     hand-atom*|hand-varcounter*) id=C14;;
+    hand-bootstrap-member*|hand-bootstrap-select*) id=C16;;
+    hand-bootstrap-*) id=C03;;
     *) id="";;
   esac
   [ -n "$id" ] && echo "$p $id" >> $JOBS
